@@ -12,6 +12,7 @@ published layouts drives real values created by a Rust static library built from
  kind 10 it(C) rows 'n script..'        an iterator BUILT BY C {iter, func: 0 = item}, advanced by Rust       -> '1 v' / '0 0' per call
  kind 11 arc(C) row 'v n'               an arc BUILT BY C as a handle table (clone_fn returns a DISTINCT handle), cloned n times / read / released by Rust -> sum ; clone_fn runs ; drop_fn runs
  kind 12 vec(C) row 'init n base'        a vector BUILT BY C (malloc'ed buffer, moving reserve_fn, recording drop_fn), pushed to n times and released by Rust -> length ; length handed to drop_fn ; drop_fn runs
+ kind 13 sbox   row 'n base'             boxed slices {instance: {data, len}, drop_fn}: one BUILT BY C read and released by Rust, one built by Rust read and released by C -> checksum ; drop_fn runs ; checksum
  kind 8 sizes   sizeof/_Alignof of the C declarations vs size_of/align_of of the Rust types
 elem: 0 = 1 byte, 1 = 8 bytes (heap-owning token in vec, u64 elsewhere), 4 = 3-byte struct, 5 = 16-byte struct aligned to 16."""
 import os
@@ -72,6 +73,11 @@ def model_line(l):
         return vlib.case_line([15], [[0, 0, r[0], 3] + r[1:] for r in ops])
     if kind == 5 or kind == 10:
         return vlib.case_line([15], [[1, r[0]] + [0] * r[0] + r[1:] for r in ops])
+    if kind == 13:      # boxed slices: the contents are those of the C11 model's vector built from the same items
+        if not ops or not ops[0]:
+            return "11 1 |"
+        n, base = ops[0][0] % 512, (ops[0][1] if len(ops[0]) > 1 else 1)
+        return vlib.case_line([11, 1], [[7, 0] + [base + i for i in range(n)], [8]])
     if kind == 12:      # a vector built by C with `init` items, Rust pushes n more: the C11 model gives the length that drop_fn must be handed
         if not ops or not ops[0]:
             return "11 1 |"
@@ -89,6 +95,17 @@ def model_line(l):
 
 def compare(l, impl_rows, model_rows):
     hdr, ops0 = vlib.parse_case(l)
+    if hdr[1] == 13:
+        try:
+            mr = [[int(x) for x in r.split()] for r in (model_rows or "").split(" ; ") if r.strip()]
+            items = [r for r in mr if r and r[0] == 8][-1][3:]
+            ck = 0
+            for x in items:
+                ck = (ck * 31 + x) % (1 << 64)
+            ck = ck - (1 << 64) if ck >= (1 << 63) else ck
+        except Exception:
+            return impl_rows.strip() == ""
+        return impl_rows.strip() == "%d 1 %d" % (ck, ck)
     if hdr[1] == 12:
         try:
             mr = [[int(x) for x in r.split()] for r in (model_rows or "").split(" ; ") if r.strip()]
@@ -142,6 +159,7 @@ def gen_cases(rng, tier):
                 cases.append("16 10 %d | %s" % (elem, " ".join(map(str, [nops] + sc))))        # the reverse direction: the iterator is built by C
     for nn in list(range(0, 9)) + [17, 64]:
         cases.append("16 11 0 | %d %d" % (rng.range(1, 10 ** 6), nn))
+        cases.append("16 13 0 | %d %d" % (nn, rng.range(1, 10 ** 6)))
         for init in (0, 1, 4, 7):
             cases.append("16 12 0 | %d %d %d" % (init, nn, rng.range(1, 10 ** 6)))
     for _ in range(n):
